@@ -4,7 +4,7 @@
    translator (Generated/GC17.v: DefaultPolicy numbers, DefaultPredicate status
    branch, whether the jitter draw is guarded) and by the correspondence run. *)
 From Coq Require Import QArith.
-From Oras Require Import Base.Prelude Base.RetryTypes Generated.GC17 Model.Retry Proofs.Retry.
+From Oras Require Import Base.Prelude Base.RetryTypes Generated.GC17 Model.Retry Proofs.Retry Proofs.RetryParse.
 Open Scope Z_scope.
 
 (* --- pacing ---------------------------------------------------------- *)
@@ -752,3 +752,50 @@ Example ex_retry_after :
                           (exp_backoff (fun _ => 0) (fun _ => 0) default_eparams))
                 0 (OStatus 429 (b "2") 0%N) = DWait 2000000000.
 Proof. vm_compute. reflexivity. Qed.
+
+(* --- the Retry-After parser in closed form (Proofs/RetryParse.v) ---------------------- *)
+
+(* whatever bytes the header holds, the parsed value is an int64: saturation, never a wrapped value *)
+Theorem C17_retry_after_parse_range :
+  forall h : str, - two63 <= parse_int64 h <= two63 - 1.
+Proof. exact parse_int64_range. Qed.
+Print Assumptions C17_retry_after_parse_range.
+
+(* an unsigned decimal numeral below 2^63 is read exactly; from 2^63 on it saturates at MaxInt64 *)
+Theorem C17_retry_after_parse_decimal :
+  forall h : str, h <> [] -> forallb is_digit h = true ->
+    (dec_val h 0 < two63 -> parse_int64 h = dec_val h 0) /\
+    (two63 <= dec_val h 0 -> parse_int64 h = two63 - 1).
+Proof.
+  intros h Hne Hd. split; intro Hv.
+  - exact (parse_int64_decimal h Hne Hd Hv).
+  - exact (parse_int64_decimal_saturates h Hne Hd Hv).
+Qed.
+Print Assumptions C17_retry_after_parse_decimal.
+
+(* a header that is not a (signed) numeral, e.g. the HTTP-date form, reads as 0 = "not usable" *)
+Theorem C17_retry_after_parse_non_numeral :
+  forall (c : N) (t : str), c <> 43%N -> c <> 45%N ->
+    forallb is_digit (c :: t) = false -> dec_val (c :: t) 0 <= max_u64 ->
+    parse_int64 (c :: t) = 0.
+Proof. exact parse_int64_non_numeral. Qed.
+Print Assumptions C17_retry_after_parse_non_numeral.
+
+(* C17_retry_after with its parser hypothesis discharged: every decimal Retry-After of n seconds
+   whose nanosecond value fits int64 is honoured within [MinWait, MaxWait], for every policy shape *)
+Theorem C17_retry_after_decimal :
+  forall guarded oob rnd e maxretry minw maxw pred attempt (h : str) ch,
+    h <> [] -> forallb is_digit h = true -> 0 < dec_val h 0 -> dec_val h 0 * 1000000000 < two63 ->
+    attempt < maxretry -> pred (OStatus 429 h ch) = PRetry ->
+    generic_retry (mkPolicy maxretry minw maxw pred (exp_backoff_gen guarded oob rnd e)) attempt (OStatus 429 h ch)
+    = DWait (clamp minw maxw (dec_val h 0 * 1000000000)).
+Proof. exact retry_after_decimal. Qed.
+Print Assumptions C17_retry_after_decimal.
+
+(* the premises are met: "120" is a decimal numeral of value 120; an HTTP-date reads as 0;
+   a 25-digit numeral saturates *)
+Example ex_retry_after_parse :
+  forallb is_digit (b "120") = true /\ dec_val (b "120") 0 = 120 /\ parse_int64 (b "120") = 120 /\
+  parse_int64 (b "Wed, 21 Oct 2015 07:28:00 GMT") = 0 /\
+  parse_int64 (b "9999999999999999999999999") = two63 - 1.
+Proof. vm_compute. repeat split; reflexivity. Qed.
